@@ -687,6 +687,17 @@ func (c *Ctx) bvcmp(op Op, a, b *Term) *Term {
 	if op == OBVUle && a.IsConst() && a.Val.Sign() == 0 {
 		return c.True
 	}
+	// (x urem k) < m for constants 0 < k <= m (and <= m for k-1 <= m): a remainder is below its non-zero
+	// divisor. Saves a bit-blasted 64-bit division per bounds check of `slice[draw % n]`.
+	if (op == OBVUlt || op == OBVUle) && b.IsConst() && a.Op == OBVURem && a.Args[1].IsConst() && a.Args[1].Val.Sign() > 0 {
+		k := a.Args[1].Val
+		if op == OBVUlt && k.Cmp(b.Val) <= 0 {
+			return c.True
+		}
+		if op == OBVUle && new(big.Int).Sub(k, big.NewInt(1)).Cmp(b.Val) <= 0 {
+			return c.True
+		}
+	}
 	return c.mk(op, Bool, []*Term{a, b}, nil, "", 0, 0)
 }
 
